@@ -597,6 +597,9 @@ func ruleExitsAfterHandler(c *Ctx, rid string, allowWriteErr, provenance bool) {
 				continue
 			}
 			for idx, s := range b.Succs {
+				if deadEdge(b, idx) {
+					continue
+				}
 				if cl.Loop.Blocks[s] {
 					continue
 				}
